@@ -6,6 +6,7 @@ class C07(TieCheck):
     area = "Route"
     props = ["Props_C07.v", "Props_C07_canon.v"]
     coq_targets = ["CorrHist.vo", "CorrIter.vo", "CorrWF.vo"]
+    gentie = "C07"
     harness = "c02"
     extra_trust = ["model: coq/Route/Tree.v; each case compares router A (after a mutation history) with router B (fresh fill in random order): tree dumps, Lookup/ServeHTTP answers on probes, and the model tree built by inserting in B's order"]
     assumptions = ["both routers are created with the same options (405 + auto OPTIONS + redirect trailing slash)"]
